@@ -76,13 +76,17 @@ func (c *Context) SpawnChild(p Producer, name string, opts ...OptFunc) *PID {
 	}
 	proc := newProcess(c.engine, options)
 	proc.context.parentCtx = c
-	// List the child before it starts. A child that dies while starting (its
-	// receiver panics with no restart budget left) takes itself off the list
-	// in its cleanup; listing it only afterwards left a dead child behind.
-	c.children.Set(proc.PID().ID, proc.PID())
-	c.engine.SpawnProc(proc)
+	// The list of children follows the registry: the child is listed in the
+	// moment it gets its id and unlisted in the moment it gives it up (see
+	// cleanup). Listing it after the spawn put a child that had died while
+	// starting back on the list, and let a stopping child take a successor
+	// that was spawned under the same id off the list.
+	pid := proc.PID()
+	c.engine.Registry.addThen(proc, func() {
+		c.children.Set(pid.ID, pid)
+	})
 
-	return proc.PID()
+	return pid
 }
 
 // SpawnChildFunc spawns the given function as a child Receiver of the current
